@@ -25,7 +25,7 @@ PROPS = {
  "C01": {
   "module": "Zog.Props.C01",
   "theorems": COMMON + [P + "C01." + t for t in ["success_means_valid_spec", "success_means_valid", "success_means_valid_all", "validU_at_prim", "prim_no_issue_sat", "complex_tests_hold", "success_means_every_visit_clean", "visits_only_append", "engine_success_iff"]] + ["Zog.Spec.validU_of_clean", "Zog.Spec.proc_cleanLocal"],
-  "streams": [eng(2500, 150000), eng(2000, 100000, "catch"), eng(2500, 100000, "nearsuccess"), eng(2000, 100000, "retype")],
+  "streams": [eng(2500, 150000), eng(2000, 100000, "catch"), eng(2500, 100000, "nearsuccess"), eng(2000, 100000, "retype"), st("http", 700, 12000)],
   "trusted_base": ENGINE_TB, "assumptions": ENGINE_ASSUME,
  },
  "C02": {
